@@ -230,7 +230,7 @@ func (g *gen) threadSubscribe(t int) int {
 		d := g.replyDelay()
 		g.router(t+d, 33.0, reqOf(c), float64(sub))
 		end = t + d
-		if r.Chance(1, 6) {
+		if r.Chance(1, 6) && !(g.prop == "C16" && g.lagging()) {
 			g.tag("dup-reply")
 			dd := hcommon.Pick(r, []int{0, 0, 1, 3})
 			if g.prop == "C16" {
@@ -324,8 +324,9 @@ func (g *gen) threadCall(t int) int {
 	prog := r.Chance(1, 2)
 	g.add(Stim{T: t, Stim: "api", G: c, Op: "call", Name: name, Prog: prog})
 	cur := t + 1 + r.Intn(4)
-	// progressive results
-	if r.Chance(1, 2) {
+	// progressive results (guard F16 under C16: with a lagging loop and no progress handler the
+	// first would be final and the others duplicates queued behind it)
+	if r.Chance(1, 2) && !(g.prop == "C16" && g.lagging() && !prog) {
 		g.tag("progressive")
 		for i, n := 0, 1+r.Intn(3); i < n; i++ {
 			g.router(cur, 50.0, reqOf(c), map[string]any{"progress": true}, []any{float64(g.marker())}, map[string]any{})
@@ -336,7 +337,9 @@ func (g *gen) threadCall(t int) int {
 		}
 	}
 	cancelAt := -1
-	if r.Chance(2, 5) || g.prop == "C16" && r.Chance(1, 3) {
+	// (guard F43 under C16: a waiter kept busy by a slow progress handler may notice its context
+	// only after Close() has closed the send channel, and then send CANCEL on it)
+	if (r.Chance(2, 5) || g.prop == "C16" && r.Chance(1, 3)) && !(g.prop == "C16" && prog && g.sc.Cfg.ProgDelay > 0) {
 		cancelAt = cur + r.Intn(6)
 		kind := hcommon.Pick(r, []string{"canceled", "deadline"})
 		g.add(Stim{T: cancelAt, Stim: "cancel", G: c, Kind: kind})
@@ -360,7 +363,7 @@ func (g *gen) threadCall(t int) int {
 	if cancelAt < 0 {
 		at := cur + 1 + r.Intn(5)
 		final(at)
-		if r.Chance(1, 8) {
+		if r.Chance(1, 8) && !(g.prop == "C16" && g.lagging()) {
 			g.tag("dup-reply")
 			if g.prop == "C16" {
 				final(at + 1 + r.Intn(2)) // guard (F16)
@@ -517,6 +520,10 @@ func (g *gen) hostile(t int) {
 	}
 }
 
+// lagging: application handlers take time, so the receive loop can fall behind and find two
+// messages sent apart queued together (guard for F16 under C16).
+func (g *gen) lagging() bool { return g.sc.Cfg.EventDelay > 0 || g.sc.Cfg.ProgDelay > 0 }
+
 // strayID: an id for a stray reply. Under C17 it may hit a request in flight (and then double
 // its real reply); under C16 it never does (guard, known finding F16).
 func (g *gen) strayID() int {
@@ -552,7 +559,9 @@ func generate(seed int64, idx int, prop string) Scenario {
 			e = g.threadSubscribe(t)
 		case x < 4:
 			e = g.threadPublish(t)
-		case x < 7:
+		case x < 7 || g.lagging():
+			// (no invocation workers while slow event / progress handlers make the loop lag: what a
+			// burst of queued messages does to them is the scheduler's choice, step by step)
 			e = g.threadCall(t)
 		default:
 			e = g.threadRegister(t)
@@ -657,7 +666,7 @@ func (g *gen) guardCloseRace() {
 	}
 	for i := range g.sc.Stims {
 		st := &g.sc.Stims[i]
-		if st.Stim != "api" {
+		if st.Stim != "api" && st.Stim != "cancel" { // (a cancelled Call sends CANCEL)
 			continue
 		}
 		for bad[st.T] {
